@@ -10,7 +10,7 @@ FUNCS = ['pyg_base._dictable:dictable.inc', 'pyg_base._dictable:dictable.exc', '
 BOUNDS = dict(table = 'rows 0..3 (thorough 4), columns a, b (+ a concrete row-id column)',
               cells = 'None | any int | any float incl. NaN (same or different object identity) and +-inf | string from a 5-pool',
               conditions = 'value, list of 1..2 values, None, NaN, compiled regex from a 3-pool, dict filter, conjunction of two column conditions, single callable from a pool of 4 '
-                           '(incl. one returning non-bool truthy values); find_<col> on tables whose cells come from concrete pools (set() hashes them)')
+                           '(incl. one returning non-bool truthy values); find_<col> (keyword, dict and callable spellings) on tables whose cells come from concrete pools (set() hashes them); regex conditions against non-string cells from a concrete pool')
 OUTSIDE = ['several callables at once', 'conditions that are containers of containers', 'tables with more than 4 rows']
 ASSUMPTIONS = ['floats are extended reals; np.isnan/np.isinf on scalars replaced by proxy-aware versions', 'strings and regexes come from fixed pools chosen by a symbolic index']
 
@@ -27,15 +27,16 @@ def _is_nan_lib(v):
     if isinstance(v, core.SymFloat): return core.mkbool(v.kind != core.FIN)
     return isinstance(v, float) and (v != v or v in (float('inf'), float('-inf')))
 
-def table(c, n, pool_cells = False, kinds = None, strs = ('a', 'B')):
+POOL = [None, 1, 2, 'a', 'B']
+def table(c, n, pool_cells = False, kinds = None, strs = ('a', 'B'), pool = POOL):
     """kinds: per column the cell kinds; a column with kinds None holds concrete payload values"""
     from pyg_base import dictable
     kinds = kinds or dict(a = CELL, b = CELL)
     cols = dict(a = [], b = []); floats = []
     for i in range(n):
         for k in 'ab':
-            if pool_cells: v = c.pick('%s%d' % (k, i), [None, 1, 2, 'a', 'B'])
-            elif kinds[k] is None: v = 'row%d' % i
+            if kinds[k] is None: v = 'row%d' % i
+            elif pool_cells: v = c.pick('%s%d' % (k, i), pool)
             else: v = V.scalar(c, '%s%d' % (k, i), kinds[k], pool = floats, strs = list(strs))
             if isinstance(v, (float, core.SymFloat)) and v.__class__ is float: floats.append(v)
             cols[k].append(v)
@@ -122,7 +123,24 @@ def h_identity(n):
         c.check('result-is-a-new-table', r is not d)
     return h
 
-def h_find(n):
+REGEX_NS = REGEX + [re.compile('[0-9n]')]
+NS_POOL = [None, 1, 20, 2.5, float('nan'), 'a', 'B1', 'n']
+def h_regex_nonstring(n):
+    """a regex condition selects string cells only: cells that are not strings (None, ints, floats, NaN - whose str() would match the last regex) never satisfy it;
+    the same rows through the keyword, the dict-filter and find_ spellings"""
+    def h(c):
+        d, cols, floats = table(c, n, pool_cells = True, kinds = dict(a = CELL, b = None), pool = NS_POOL)
+        rx = c.pick('rx', REGEX_NS)
+        pred = lambda i: isinstance(cols['a'][i], str) and rx.search(cols['a'][i]) is not None
+        check_partition(c, d, cols, n, d.inc(a = rx), d.exc(a = rx), pred)
+        check_partition(c, d, cols, n, d.inc(dict(a = rx)), d.exc(dict(a = rx)), pred)
+        sel = [i for i in range(n) if pred(i)]
+        try: got = d.find_rid(a = rx); raised = None
+        except ValueError: got = None; raised = 'ValueError'
+        c.check('find-agrees-with-inc-on-regex', (raised is None and got == sel[0]) if len(sel) == 1 else raised == 'ValueError')
+    return h
+
+def h_find(n, mode = 'kw'):
     def h(c):
         d, cols, floats = table(c, n, pool_cells = True)
         v = c.pick('v', [None, 1, 2, 'a', 'zz'])
@@ -131,7 +149,10 @@ def h_find(n):
         for i in sel:
             if not any(cols['b'][i] is x or (cols['b'][i] == x and type(cols['b'][i]) == type(x)) for x in vals): vals.append(cols['b'][i])
         try:
-            got = d.find_b(a = v); raised = None
+            if mode == 'kw': got = d.find_b(a = v)
+            elif mode == 'dict': got = d.find_b(dict(a = v))
+            else: got = d.find_b((lambda a: a is None) if v is None else (lambda a: a is not None and a == v))
+            raised = None
         except ValueError as e:
             got = None; raised = 'ValueError'
         if len(vals) == 1:
@@ -160,4 +181,7 @@ def obligations(tier):
             obs.append(Ob('callable.%d.%s' % (n, nm), h_callable(n), setup = setup, pins = {'fn': i}, budget_s = 400, desc = 'inc/exc(single callable %s), %d rows' % (nm, n)))
         obs.append(Ob('no-condition.%d' % n, h_identity(n), setup = setup, desc = 'inc() is the identity, %d rows' % n))
         if n <= 2 or not q: obs.append(Ob('find.%d' % n, h_find(n), setup = setup, budget_s = 300 if n < 3 else 2400, desc = 'find_b(a=v) returns the unique value or raises, %d rows' % n))
+        if n <= 2:
+            for mode in ('dict', 'callable'): obs.append(Ob('find.%s.%d' % (mode, n), h_find(n, mode), setup = setup, budget_s = 300, desc = 'find_b(<the condition a == v spelt as a %s>) returns the unique value among the rows inc selects or raises, %d rows' % (mode, n)))
+        if n <= 3: obs.append(Ob('regex.non-string-cells.%d' % n, h_regex_nonstring(n), setup = setup, budget_s = 300, desc = 'a regex condition never selects a cell that is not a string (pool incl. ints, floats, NaN, None whose str() would match), keyword / dict / find_ spellings, %d rows' % n))
     return obs
